@@ -211,17 +211,51 @@ def close(x, y, tol=1e-12):
     return abs(float(x) - float(y)) <= tol * max(1.0, abs(float(y)))
 
 
-def cf_k0(ctx, site="grain edges"):
-    """at k = 0 the area and volume factors are the spherical 4 pi and 4 pi / 3 (plain evaluation, no unknowns: scalar
-    and array argument, and the cached factors of a NucleationBarrierParameters with gbEnergy = 0); with them the
-    heterogeneous Rcrit / Gcrit are the bulk expressions for every positive driving force"""
+class plain_numpy:
+    """evaluate a piece of kawin on plain numpy in every mode: for all-concrete arguments the facade adds nothing, and the
+    dtype semantics (integer vs float buffers) are numpy's own -- dtypes are structure, not solver variables"""
+
+    def __init__(self, ctx):
+        self.ctx = ctx
+
+    def __enter__(self):
+        self.mode = self.ctx.mode
+        self.ctx.mode = "concrete"
+
+    def __exit__(self, *exc):
+        self.ctx.mode = self.mode
+        return False
+
+
+K0_FORMS = {
+    "float": (lambda: 0.0, lambda: np.array([0.0, 0.0])),
+    "int": (lambda: 0, lambda: [0, 0]),
+    "int64": (lambda: np.int64(0), lambda: np.zeros(3, dtype=int)),
+    "intarray": (lambda: np.array(0), lambda: np.array([0, 0])),
+}
+
+
+def cf_k0(ctx, site="grain edges", kform="float"):
+    """at k = 0 the area and volume factors are the spherical 4 pi and 4 pi / 3 (plain evaluation, no unknowns), however
+    the zero ratio is written: float, Python int, np.int64, integer arrays (kform); scalar and array calls agree;
+    kform=float also: the cached factors of a NucleationBarrierParameters with gbEnergy = 0 are spherical and with them
+    the heterogeneous Rcrit / Gcrit are the bulk expressions for every positive driving force"""
+    import numpy as rnp
     d = mk_desc(site)
     dG = pos(ctx, "dG", (0.5, 3.0))
-    b = sc(d.areaFactor(0.0)); c = sc(d.volumeFactor(0.0))
-    b2 = sc(d.areaFactor(np.array([0.0, 0.0]))[1]); c2 = sc(d.volumeFactor(np.array([0.0, 0.0]))[0])
-    ctx.observe("b", float(b)); ctx.observe("c", float(c))
-    ctx.prove("areaFactor(0) = 4 pi", close(b, 4 * math.pi) and close(b2, 4 * math.pi))
-    ctx.prove("volumeFactor(0) = 4 pi / 3", close(c, 4 * math.pi / 3) and close(c2, 4 * math.pi / 3))
+    mk_scalar, mk_array = K0_FORMS[kform]
+    with plain_numpy(ctx):
+        b = d.areaFactor(mk_scalar()); c = d.volumeFactor(mk_scalar())
+        ba = rnp.asarray(d.areaFactor(mk_array())); ca = rnp.asarray(d.volumeFactor(mk_array()))
+        ra = rnp.asarray(d.areaRemoval(mk_array())); ga = rnp.asarray(d.gbRemoval(mk_scalar()))
+    b = float(b); c = float(c)
+    ctx.observe("b", b); ctx.observe("c", c)
+    ctx.prove("areaFactor(0) = 4 pi", close(b, 4 * math.pi) and all(close(v, 4 * math.pi) for v in ba.ravel()))
+    ctx.prove("volumeFactor(0) = 4 pi / 3", close(c, 4 * math.pi / 3) and all(close(v, 4 * math.pi / 3) for v in ca.ravel()))
+    ctx.prove("scalar and array calls agree", ba.shape == ca.shape == ra.shape == rnp.shape(mk_array()) and
+              all(float(v) == b for v in ba.ravel()) and all(float(v) == c for v in ca.ravel()))
+    if kform != "float":
+        return
     nb = NucleationBarrierParameters(site=site, gamma=0.37, gbEnergy=0.0)
     ctx.prove("cached factors at gbEnergy = 0 are spherical", close(sc(nb.areaFactor), 4 * math.pi) and close(sc(nb.volumeFactor), 4 * math.pi / 3))
     # with the spherical factors the heterogeneous barrier is the bulk one (symbolic dG, gamma fixed)
@@ -737,7 +771,8 @@ HARNESSES = [
     Harness("C14.cf_identity", cf_identity, functions=_FD, opts={"symbolic_pi": True},
             params={"quick": [{"site": s, "n": 1} for s in SITES[1:]] + [{"site": "grain edges", "n": 2}],
                     "thorough": [{"site": s, "n": 2} for s in SITES]}),
-    Harness("C14.cf_k0", cf_k0, functions=_FD + _FB[1:], params={"quick": [{"site": s} for s in SITES], "thorough": [{"site": s} for s in SITES]}),
+    Harness("C14.cf_k0", cf_k0, functions=_FD + _FB[1:], bounds={"k": "the zero ratio as float, int, np.int64, 0-d and 1-d integer arrays"},
+            params={"quick": [{"site": s, "kform": f} for s in SITES for f in K0_FORMS], "thorough": [{"site": s, "kform": f} for s in SITES for f in K0_FORMS]}),
     Harness("C14.rates", rates, functions=_FR, opts={"symbolic_pi": False}, stubs=_ST, assumptions=_AR,
             params={"quick": [{"site": "bulk", "beta_kind": 1, "n": 1}, {"site": "grain boundaries", "beta_kind": 2, "n": 1},
                               {"site": "grain edges", "beta_kind": 3, "n": 1}, {"site": "dislocations", "beta_kind": 1, "n": 2}, {"site": "grain corners", "beta_kind": 1, "n": 1}],
